@@ -9,9 +9,12 @@ import argparse, json, os, re, shutil, subprocess, sys, time
 ap = argparse.ArgumentParser()
 ap.add_argument("id"); ap.add_argument("--checks", default=""); ap.add_argument("--summary", required=True); ap.add_argument("--needs", required=True)
 ap.add_argument("--tier", default="quick")
+ap.add_argument("--strengthening", default=None, help="what was added to the checks because this change was missed at first")
+ap.add_argument("--dir", default="/tmp/seed", help="where the seed directories live")
+ap.add_argument("--name", default=None, help="directory name under /verif/seeded (default: the id)")
 ap.add_argument("--demo-crate", default="core:typeshare-core", help="<dir>:<package> a seeded_demo.rs test file belongs to")
 a = ap.parse_args()
-S = f"/tmp/seed/{a.id}"; W = f"{S}/wt"; D = f"/verif/seeded/{a.id}"
+S = f"{a.dir}/{a.id}"; W = f"{S}/wt"; D = f"/verif/seeded/{a.name or a.id}"
 env = dict(os.environ, CARGO_TARGET_DIR=f"{S}/target", CARGO_NET_OFFLINE="true")
 def sh(cmd, cwd=None, env=env, timeout=3600):
     p = subprocess.run(cmd, shell=True, cwd=cwd, env=env, capture_output=True, text=True, timeout=timeout)
@@ -64,6 +67,13 @@ shutil.copytree(f"{S}/demo", f"{D}/demo", ignore=shutil.ignore_patterns("work", 
 meta = {"property": a.id, "summary": a.summary, "needs_to_manifest": a.needs, "author": "fresh sub-agent given only the property text and a scratch worktree",
         "confirmed_in_scratch_worktree": {"suite_command": SUITE, "suite_with_change": suite, "demo_with_change": d_with, "demo_without_change": d_without, "confirmed": confirmed},
         "checks_run_with_change_applied_to_repo": results, "detected_by": [c for c, r in results.items() if r["exit"] == 1 and r["violation_lines"] > 0],
-        "how_to_rerun": f"git -C /repo apply /verif/seeded/{a.id}/patch.diff && /verif/check <id>; git -C /repo checkout -- ."}
+        "how_to_rerun": f"git -C /repo apply /verif/seeded/{a.name or a.id}/patch.diff && /verif/check <id>; git -C /repo checkout -- ."}
+old = {}
+if os.path.exists(f"{D}/meta.json"):
+    try: old = json.load(open(f"{D}/meta.json"))
+    except Exception: old = {}
+st = a.strengthening or old.get("strengthening")
+if st: meta["strengthening"] = st
+if old.get("first_evaluation"): meta["first_evaluation"] = old["first_evaluation"]
 json.dump(meta, open(f"{D}/meta.json", "w"), indent=1)
 print("stored", D, "detected_by", meta["detected_by"])
